@@ -173,6 +173,21 @@ func init() {
 		s := BVAdd(BVAdd(xs, ys), cs)
 		return TupleV{Extract(s, 63, 0), ZeroExt(Extract(s, 64, 64), 64)}
 	})
+	reg("math/bits.Div64", func(in *Interp, fn *ssa.Function, a []Value) Value {
+		hi, lo, y := a[0].(*Term), a[1].(*Term), a[2].(*Term)
+		if isIntSorted(hi) || isIntSorted(lo) || isIntSorted(y) {
+			h, l, d := toInt(hi, false), toInt(lo, false), toInt(y, false)
+			in.branchPanic(Eq(d, IntConst(0)), "integer divide by zero")
+			in.branchPanic(ILe(d, h), "integer overflow")
+			n := IAdd(IMul(h, IntConstBig(pow2(64))), l)
+			return TupleV{IDiv(n, d), IMod(n, d)}
+		}
+		in.branchPanic(Eq(y, BVConst(64, 0)), "integer divide by zero")
+		in.branchPanic(BVUle(y, hi), "integer overflow")
+		n := Concat(hi, lo)
+		d := ZeroExt(y, 128)
+		return TupleV{Extract(BVUDiv(n, d), 63, 0), Extract(BVURem(n, d), 63, 0)}
+	})
 	reg("math/bits.Mul64", func(in *Interp, fn *ssa.Function, a []Value) Value {
 		x, y := a[0].(*Term), a[1].(*Term)
 		if isIntSorted(x) || isIntSorted(y) {
